@@ -1,59 +1,72 @@
-(* Classification of every site of the library that tests is_compiling() (hand-written; the list of sites is
-   re-translated from /repo on every run into Gen/C18_sites.v and the theorem C18_sites_classified re-proved).
-   DualModelled: the two branches compute a VALUE two ways — both are modelled in Model/Keys.v, SliceM.v, Dual.v and compared
-                 on exhaustive grids by harness/c18.py.
-   Guard:        the compile branch only skips eager-only bookkeeping (weak references, memo tables, locks, warnings,
-                 graph breaks, cache lookups); the value computed is the same expression on both paths.  Covered by the
-                 eager-vs-compiled program differential only. *)
+(* Classification of every site of the library that tests is_compiling() -- or receives the flag as a keyword parameter --
+   (hand-written; the list of sites AND the shape of each branch are re-translated from /repo on every run into
+   Gen/C18_sites.v; C18_sites_classified and C18_guards_checked are re-proved on every run).
+   DualModelled:   the two branches compute a VALUE two ways -- both are modelled (Model/Keys.v, SliceM.v, Dual.v,
+                   C18_Names.v, C18_Memo.v, C18_SeqKeys.v) with a dual theorem, and compared with the real code on both
+                   forced branches by harness/c18.py.
+   Guard:          the two specialisations of the body (flag := True / False) are the same program up to statements on the
+                   bookkeeping allow-list of Model/C18_SiteShape.v -- CHECKED: [guard_shape_ok] holds (C18_guards_checked).
+   DualUnmodelled: the branches differ in value-carrying statements and there is no model: covered only by the
+                   forced-branch program differential and the eager-vs-torch.compile differential (listed by name in the
+                   evidence).  nn-module plumbing and tensorclass plumbing live here. *)
 From Coq Require Import List String Bool.
 Import ListNotations.
+From TD Require Import Model.C18_SiteShape.
 Open Scope string_scope.
 
-Inductive site_class := DualModelled | Guard.
+Inductive site_class := DualModelled | Guard | DualUnmodelled.
 
 Definition classified : list ((string * string) * site_class) :=
 [
-  (("_contextlib.py", "_reverse_to_module"), Guard);
-  (("_td.py", "TensorDict.__init__"), Guard);
-  (("_td.py", "TensorDict._new_unsafe"), Guard);
+  (("_contextlib.py", "_reverse_to_module"), DualUnmodelled);      (* eager unlocks the swap destination, compile does not *)
+  (("_lazy.py", "LazyStackedTensorDict._propagate_lock"), Guard);
+  (("_lazy.py", "_CustomOpTensorDict._propagate_lock"), Guard);
+  (("_td.py", "TensorDict.__init__"), DualModelled);               (* C18_Names: compile skips `self.names = names` *)
+  (("_td.py", "TensorDict._new_unsafe"), DualModelled);            (* C18_Names: compile falls back to __init__ *)
   (("_td.py", "TensorDict._parse_batch_size"), DualModelled);
-  (("_td.py", "TensorDict._to_module"), Guard);
-  (("_td.py", "TensorDict.names"), Guard);
+  (("_td.py", "TensorDict._to_module"), DualUnmodelled);           (* nn plumbing: __dict__ fast path vs setattr *)
+  (("_td.py", "TensorDict.names"), DualModelled);                  (* C18_Names: compile returns early on None *)
+  (("_td.py", "_SubTensorDict._propagate_lock"), Guard);
   (("_torch_func.py", "_cat"), Guard);
   (("_torch_func.py", "_stack.stack_fn"), Guard);
   (("base.py", "TensorDictBase.__exit__"), Guard);
   (("base.py", "TensorDictBase._items_list"), DualModelled);
+  (("base.py", "TensorDictBase._propagate_lock"), Guard);
   (("base.py", "TensorDictBase._sync_all"), Guard);
   (("base.py", "TensorDictBase._values_list"), DualModelled);
-  (("base.py", "TensorDictBase.consolidate"), Guard);
+  (("base.py", "TensorDictBase.consolidate"), DualUnmodelled);     (* is_contiguous() vs stride[-1] != 1 or storage_offset() *)
   (("base.py", "TensorDictBase.lock_"), Guard);
   (("base.py", "TensorDictBase.unflatten_keys"), Guard);
-  (("base.py", "_is_tensor_collection"), Guard);
-  (("nn/common.py", "TensorDictModule.__getattr__"), Guard);
-  (("nn/common.py", "TensorDictModuleWrapper.__getattr__"), Guard);
-  (("nn/params.py", "TensorDictParams._new_unsafe"), Guard);
-  (("nn/probabilistic.py", "ProbabilisticTensorDictSequential.forward"), Guard);
-  (("nn/probabilistic.py", "_dynamo_friendly_to_dict"), Guard);
-  (("nn/sequence.py", "TensorDictSequential.forward"), Guard);
-  (("nn/utils.py", "_set_skip_existing_None.__call__.wrapper"), Guard);
+  (("base.py", "_is_tensor_collection"), DualModelled);            (* C18_Memo *)
+  (("base.py", "_lock_graph"), Guard);
+  (("nn/common.py", "TensorDictModule.__getattr__"), DualUnmodelled);
+  (("nn/common.py", "TensorDictModuleWrapper.__getattr__"), DualUnmodelled);
+  (("nn/params.py", "TensorDictParams._new_unsafe"), DualUnmodelled);
+  (("nn/params.py", "TensorDictParams._propagate_lock"), Guard);
+  (("nn/params.py", "TensorDictParams._relock_content"), Guard);
+  (("nn/probabilistic.py", "ProbabilisticTensorDictSequential.forward"), DualModelled);   (* C18_SeqKeys *)
+  (("nn/probabilistic.py", "_dynamo_friendly_to_dict"), DualUnmodelled);
+  (("nn/sequence.py", "TensorDictSequential.forward"), DualModelled);                     (* C18_SeqKeys *)
+  (("nn/utils.py", "_set_skip_existing_None.__call__.wrapper"), DualUnmodelled);
   (("nn/utils.py", "set_skip_existing.__enter__"), Guard);
-  (("tensorclass.py", "_from_tensordict"), Guard);
-  (("tensorclass.py", "_init_wrapper.wrapper"), Guard);
-  (("tensorclass.py", "_setattr_wrapper.wrapper"), Guard);
+  (("persistent.py", "PersistentTensorDict._propagate_lock"), Guard);
+  (("tensorclass.py", "_from_tensordict"), DualUnmodelled);
+  (("tensorclass.py", "_init_wrapper.wrapper"), DualUnmodelled);
+  (("tensorclass.py", "_setattr_wrapper.wrapper"), DualUnmodelled);
   (("tensorclass.py", "_wrap_method"), Guard);
-  (("tensorclass.py", "_wrap_td_method.deliver_result"), Guard);
-  (("tensorclass.py", "_wrap_td_method.wrapped_func"), Guard);
-  (("tensorclass.py", "_wrap_td_method.wrapped_func_setter"), Guard);
+  (("tensorclass.py", "_wrap_td_method.deliver_result"), DualUnmodelled);
+  (("tensorclass.py", "_wrap_td_method.wrapped_func"), DualUnmodelled);
+  (("tensorclass.py", "_wrap_td_method.wrapped_func_setter"), DualUnmodelled);
   (("utils.py", "_ContextManager.get_mode"), Guard);
   (("utils.py", "_ContextManager.set_mode"), Guard);
   (("utils.py", "_check_keys"), Guard);
   (("utils.py", "_getitem_batch_size"), DualModelled);
-  (("utils.py", "_is_non_tensor"), Guard);
+  (("utils.py", "_is_non_tensor"), DualModelled);                  (* C18_Memo *)
   (("utils.py", "_is_tensorclass"), Guard);
-  (("utils.py", "_parse_to"), Guard);
-  (("utils.py", "_pass_through_cls"), Guard);
+  (("utils.py", "_parse_to"), DualUnmodelled);                     (* known finding D1802: positional dtype under compile *)
+  (("utils.py", "_pass_through_cls"), DualModelled);               (* C18_Memo *)
   (("utils.py", "_unravel_key_to_tuple"), DualModelled);
-  (("utils.py", "cache.newfun"), Guard);
+  (("utils.py", "cache.newfun"), DualModelled);                    (* C18_Memo: cache consulted only when locked and not compiling *)
   (("utils.py", "unravel_key"), DualModelled);
   (("utils.py", "unravel_key_list"), DualModelled);
   (("utils.py", "unravel_keys"), DualModelled)
@@ -61,5 +74,20 @@ Definition classified : list ((string * string) * site_class) :=
 
 Definition site_eqb (a b : string * string) : bool := String.eqb (fst a) (fst b) && String.eqb (snd a) (snd b).
 Definition is_classified (s : string * string) : bool := existsb (fun c => site_eqb s (fst c)) classified.
+Definition class_of (s : string * string) : option site_class :=
+  option_map snd (find (fun c => site_eqb s (fst c)) classified).
+Definition is_guard (s : string * string) : bool :=
+  match class_of s with Some Guard => true | _ => false end.
 Definition dual_sites : list (string * string) :=
-  map fst (filter (fun c => match snd c with DualModelled => true | Guard => false end) classified).
+  map fst (filter (fun c => match snd c with DualModelled => true | _ => false end) classified).
+Definition unmodelled_sites : list (string * string) :=
+  map fst (filter (fun c => match snd c with DualUnmodelled => true | _ => false end) classified).
+Definition guard_sites : list (string * string) :=
+  map fst (filter (fun c => match snd c with Guard => true | _ => false end) classified).
+
+(* the flag handed on as a keyword: some analysed site must be a function of that name *)
+Definition ends_with (s suf : string) : bool :=
+  let n := String.length s in let m := String.length suf in
+  Nat.leb m n && String.eqb (substring (n - m) m s) suf.
+Definition forward_resolved (table : list site) (fw : string * string) : bool :=
+  existsb (fun s => ends_with (s_func s) (fst fw)) table.
